@@ -6,7 +6,8 @@
  * read lock is really shared. */
 #include "common.h"
 
-enum { A_U0, A_U1, A_EXT };  /* actor kinds */
+enum { A_U0, A_U1, A_EXT, A_US };  /* actor kinds; A_US: ULT in a pool shared by
+                                     * two extra streams (may resume elsewhere) */
 enum { R, W };               /* roles */
 
 typedef struct {
@@ -62,6 +63,14 @@ static const cfg_t cfgs[] = {
       { ACT(A_U0, R, 1, 0), ACT(A_U1, R, 1, 0), ACT(A_EXT, R, 1, 0) } },
     { "WRR rendezvous X+U0+U1", 0, 1, 3,
       { ACT(A_EXT, W, 1, 0), ACT(A_U0, R, 1, 0), ACT(A_U1, R, 1, 0) } },
+    /* ---- lockers in a pool served by two streams: a blocked locker may be
+     * resumed on another stream and then has to wait a second time */
+    { "W2W2 US+US (pool shared by 2 streams, 2 rounds each) + X.R", 0, 0, 3,
+      { ACT(A_US, W, 2, 0), ACT(A_US, W, 2, 0), ACT(A_EXT, R, 1, 0) } },
+    { "WRR US+US+X (pool shared by 2 streams, yield in cs)", 0, 0, 3,
+      { ACT(A_US, W, 2, 1), ACT(A_US, R, 1, 1), ACT(A_EXT, R, 1, 0) } },
+    { "W2 R2 W US+US+US (pool shared by 2 streams)", 0, 0, 3,
+      { ACT(A_US, W, 2, 0), ACT(A_US, R, 2, 0), ACT(A_US, W, 1, 0) } },
 };
 
 static const cfg_t *C;
@@ -154,6 +163,20 @@ static void scenario(int cfg)
         OK(ABT_xstream_create(ABT_SCHED_NULL, &es1));
     ABT_pool p0 = h_main_pool(h_self_xstream());
     ABT_pool p1 = need_es1 ? h_main_pool(es1) : ABT_POOL_NULL;
+    int need_shared = 0;
+    for (int i = 0; i < C->nactors; i++)
+        if (C->a[i].actor == A_US)
+            need_shared = 1;
+    ABT_pool ps = ABT_POOL_NULL;
+    ABT_xstream esa = ABT_XSTREAM_NULL, esb = ABT_XSTREAM_NULL;
+    if (need_shared) {
+        ABT_sched sa, sb;
+        OK(ABT_pool_create_basic(ABT_POOL_FIFO, ABT_POOL_ACCESS_MPMC, ABT_TRUE, &ps));
+        OK(ABT_sched_create_basic(ABT_SCHED_BASIC, 1, &ps, ABT_SCHED_CONFIG_NULL, &sa));
+        OK(ABT_sched_create_basic(ABT_SCHED_BASIC, 1, &ps, ABT_SCHED_CONFIG_NULL, &sb));
+        OK(ABT_xstream_create(sa, &esa));
+        OK(ABT_xstream_create(sb, &esb));
+    }
 
     abtmc_window_begin();
     ABT_thread th[3] = { ABT_THREAD_NULL, ABT_THREAD_NULL, ABT_THREAD_NULL };
@@ -176,6 +199,10 @@ static void scenario(int cfg)
                 break;
             case A_U1:
                 OK(ABT_thread_create(p1, actor_body, arg, ABT_THREAD_ATTR_NULL,
+                                     &th[i]));
+                break;
+            case A_US:
+                OK(ABT_thread_create(ps, actor_body, arg, ABT_THREAD_ATTR_NULL,
                                      &th[i]));
                 break;
             default:
@@ -231,6 +258,12 @@ static void scenario(int cfg)
     if (need_es1) {
         OK(ABT_xstream_join(es1));
         OK(ABT_xstream_free(&es1));
+    }
+    if (need_shared) {
+        OK(ABT_xstream_join(esa));
+        OK(ABT_xstream_join(esb));
+        OK(ABT_xstream_free(&esa));
+        OK(ABT_xstream_free(&esb));
     }
     h_finalize();
 }
